@@ -16,7 +16,7 @@ From Coq Require Import List ZArith Bool String.
 From GoHls Require Import Lib.MuxSched Model.MuxConcSeq Model.MuxConcSpec Model.MuxConcPar
   Proofs.MuxConcSeqA Proofs.MuxConcSeqB Proofs.MuxConcSeqC
   Proofs.MuxConcInvA Proofs.MuxConcInvB Proofs.MuxConcInvC Proofs.MuxConcInvD
-  Proofs.MuxConcProg Proofs.MuxConcMain Tie.MuxConcTie Proofs.MuxConcTieRun.
+  Proofs.MuxConcProg Proofs.MuxConcMain Proofs.MuxConcAll Tie.MuxConcTie Proofs.MuxConcTieRun.
 From GoHls Require Model.Mux Proofs.MuxLogStep Proofs.MuxConcRefine.
 Import ListNotations.
 Local Open Scope Z_scope.
@@ -33,6 +33,14 @@ Print Assumptions c06_reachable_wf.
 Theorem c06_initial_wf : forall v sc n lead, wf_mux (mux_init v sc n lead).
 Proof. exact init_mux_wf. Qed.
 Print Assumptions c06_initial_wf.
+
+(* ... and so is the shared state along every CONCURRENT run (the writer's steps are the same
+   operations): the Ready-iff-contains theorems below apply to every state a requester can see.
+   (in_range - ids below 2^64-2, i.e. fewer than 1.8e19 segment rotations - stays an assumption) *)
+Theorem c06_reachable_wf_concurrent : forall m prog reqs sched,
+  1 <= m_segmentCount m -> wf_mux m -> wf_mux (c_mux (crun (cinit m prog reqs) sched)).
+Proof. exact wf_reachable_concurrent. Qed.
+Print Assumptions c06_reachable_wf_concurrent.
 
 (* Ready => the playlist generated in that same state contains what was asked *)
 Theorem c06_ready_sound : forall s q M P,
@@ -71,13 +79,23 @@ Example c06_former_findings :
   decide LL ex_stream 3 (Some 5) = Ready /\ decide LL ex_stream 8 None = Block.
 Proof. exact ex_former_findings. Qed.
 
-(* 400 exactly when M > last complete + 2 or M <= the head of the window (the head segment,
-   which the next rotation evicts, is treated as expired) *)
+(* what the code does: 400 exactly when M > last complete + 2 or M <= the head of the window.
+   The second disjunct includes M = head_msn s, the first LISTED segment, which has not expired:
+   recorded finding F28 (c06_400_head_of_window_refuted; not repaired because the existing test
+   TestMuxerExpiredSegment expects 400 for exactly that request) *)
 Theorem c06_400_only_if : forall s M P,
   wf_stream LL s -> in_range s -> segments s <> [] -> 0 <= M ->
   (decide LL s M P = Respond400 <-> (M > last_complete_msn s + 2 \/ M <= head_msn s)).
 Proof. exact only_400_if. Qed.
 Print Assumptions c06_400_only_if.
+
+Theorem c06_400_head_of_window_refuted :
+  exists s M pl, wf_stream LL s /\ in_range s /\ M = head_msn s /\
+    generateMediaPlaylistFMP4 LL s false [] = Some pl /\
+    pl_contains pl M None = true /\ pl_contains pl M (Some 0) = true /\
+    decide LL s M None = Respond400 /\ decide LL s M (Some 0) = Respond400.
+Proof. exact head_of_window_400_refuted. Qed.
+Print Assumptions c06_400_head_of_window_refuted.
 
 Theorem c06_never_reject : forall s M P,
   wf_stream LL s -> in_range s -> hasContent LL s = true -> 0 <= nextSegmentID s ->
@@ -270,6 +288,16 @@ Theorem c06_hint_prop_reachable : forall m prog reqs sched,
 Proof. exact paths_reachable. Qed.
 Print Assumptions c06_hint_prop_reachable.
 
+(* hint_prop for every variant: fMP4 / MPEG-TS never register a part path *)
+Theorem c06_hint_prop_reachable_all_variants : forall m prog reqs sched,
+  table_ok m -> hint_prop (c_mux (crun (cinit m prog reqs) sched)).
+Proof. exact hint_prop_reachable_all_variants. Qed.
+Print Assumptions c06_hint_prop_reachable_all_variants.
+
+Theorem c06_initial_table_ok : forall v sc n lead, table_ok (mux_init v sc n lead).
+Proof. exact init_table_ok. Qed.
+Print Assumptions c06_initial_table_ok.
+
 Theorem c06_not_wait_when_ready : forall m q f,
   content_ready m f = true -> test m q f <> TWait.
 Proof. exact test_not_wait_of_ready. Qed.
@@ -293,6 +321,19 @@ Theorem c06_hint_body : forall m prog reqs sched i r h,
       exists s, nth_error (m_streams (c_mux c)) k = Some s /\ s_closed s = false /\ id < nextPartID s.
 Proof. exact hint_body. Qed.
 Print Assumptions c06_hint_body.
+
+(* the same, stated for the request: GET of the URI of part id of stream k *)
+Theorem c06_hint_body_of_request : forall m prog reqs sched i r h k id,
+  m_variant m = LL -> paths_ok m ->
+  nth_error (c_reqs (crun (cinit m prog reqs) sched)) i = Some r ->
+  r_req r = RqPath (PPart k id) -> r_pc r = PUnlockCall h ->
+  (h = Some (HPart k id) \/ h = None) /\
+  exists p rest, sched = p ++ TR i :: rest /\
+    let c := crun (cinit m prog reqs) p in
+    req_pc c i = Some (PTest (FHint k id)) /\
+    exists s, nth_error (m_streams (c_mux c)) k = Some s /\ s_closed s = false /\ id < nextPartID s.
+Proof. exact hint_body_of_request. Qed.
+Print Assumptions c06_hint_body_of_request.
 
 (* the macro schedules the correspondence run evaluates are ordinary schedules of the model:
    every theorem above applies to the runs the tie compares with the real muxer *)
